@@ -26,6 +26,9 @@ type concScenario struct {
 	Setup   []lk.Op   `json:"setup"`
 	Clients [][]lk.Op `json:"clients"`
 	Bound   int       `json:"bound"` // preemption bound; <0 = unbounded (closed by memoisation)
+	// Prelude operations run on each client's handle before the exploration
+	// starts, un-gated and one client at a time (e.g. to warm its caches).
+	Prelude [][]lk.Op `json:"prelude,omitempty"`
 	Quick   bool      `json:"-"`
 	Heavy   bool      `json:"-"`
 }
@@ -82,6 +85,9 @@ var (
 // concurrent and the sequential runs: ok, or the kind of failure.
 func resultClass(res string, err error) string {
 	if err == nil {
+		if strings.HasPrefix(res, "Q:") {
+			return "ok " + res // a query's result is what it returned
+		}
 		return "ok"
 	}
 	s := err.Error()
@@ -112,6 +118,13 @@ func runSequential(t *testing.T, ctx context.Context, base *vstore.Store, sc con
 				t.Fatalf("%s: open: %v", sc.Name, err)
 			}
 			handles[i] = l
+			if i < len(sc.Prelude) {
+				for _, op := range sc.Prelude[i] {
+					if _, err := l.Apply(ctx, op); err != nil {
+						t.Fatalf("%s: prelude %s: %v", sc.Name, op, err)
+					}
+				}
+			}
 		}
 		vsched.SetCurrent(-2)
 		c, err := coldContents(ctx, st)
@@ -272,6 +285,13 @@ func exploreScenario(t *testing.T, sc concScenario, deadline time.Time, maxExecs
 				l, err := lk.Open(ctx, engines[i])
 				if err != nil {
 					t.Fatalf("%s: open: %v", sc.Name, err)
+				}
+				if i < len(sc.Prelude) {
+					for _, op := range sc.Prelude[i] {
+						if _, err := l.Apply(ctx, op); err != nil {
+							t.Fatalf("%s: prelude %s: %v", sc.Name, op, err)
+						}
+					}
 				}
 				engines[i].Hook = s.Hook()
 				clients[i].Name = names[i]
